@@ -398,13 +398,21 @@ def cbThen (c : Ctx) (s : St) (obs : List Obs) (frames : Nat → List Frame) (m 
 def nodeFinish (c : Ctx) (s : St) (obs : List Obs) (d : DagRef) (n : Node) (below : List Frame) : Out :=
   retTo c (nodeFinally c.P s d n true) obs below .none
 
+/-- `_run_node`: a `Recurrent` result starts the task of the recurrent subgraph (manager.py 656–664) -/
+def recSpawn (s : St) (d : DagRef) (n : Node) (v : Val) : St :=
+  if v.isRecur then (spawn s [.recStart d n v] (.recur n)).1 else s
+
+/-- `_run_node`: only the task that executed the node stores the result; one that merely waited for it does not
+write back what it read (it may be a hidden result, i.e. `None`) -/
+def storeIf (s : St) (executedHere : Bool) (n : Node) (v : Val) : St :=
+  if executedHere then s.setRes n v else s
+
 /-- `_run_node` after `_execute_node` returned `v` (manager.py 630–649) and the `finally` -/
 def nodePost (c : Ctx) (s : St) (obs : List Obs) (d : DagRef) (n : Node) (below : List Frame) (v : Val)
     (executedHere : Bool := true) : Out :=
   -- a `Recurrent` result: start the recurrent subgraph, do not unlock the descendants
   let obs := if v.isRecur then obs ++ [.spawn s.tasks.length (.recur n)] else obs
-  let s := if v.isRecur then (spawn s [.recStart d n v] (.recur n)).1 else s
-  let s := s.setRes n v
+  let s := storeIf (recSpawn s d n v) executedHere n v
   -- fix c29fd0e: only a real value is saved, and only by the task that executed the node
   if executedHere && !v.isRecur && !v.isExc then
     cbThen c s (obs ++ [.save n v]) (fun j => .node d n false (.cbSave j) :: below) (c.P.cbYield .save n)
